@@ -1,3 +1,4 @@
+pub mod c01;
 pub mod c04;
 pub mod c09;
 pub mod c14;
@@ -16,5 +17,5 @@ pub mod solo_props;
 use crate::runner::PropDef;
 
 pub fn all() -> Vec<PropDef> {
-    vec![solo_props::c02_def(), solo_props::c03_def(), c04::def(), solo_props::c05_def(), cluster_props::c06_def(), cluster_props::c07_def(), solo_props::c08_def(), c09::def(), solo_props::c10_def(), mempool_props::c11_def(), mempool_props::c12_def(), cluster_props::c13_def(), c14::def(), c15::def(), c16::def(), c17::def(), c18::def(), c19::def(), c20::def()]
+    vec![c01::def(), solo_props::c02_def(), solo_props::c03_def(), c04::def(), solo_props::c05_def(), cluster_props::c06_def(), cluster_props::c07_def(), solo_props::c08_def(), c09::def(), solo_props::c10_def(), mempool_props::c11_def(), mempool_props::c12_def(), cluster_props::c13_def(), c14::def(), c15::def(), c16::def(), c17::def(), c18::def(), c19::def(), c20::def()]
 }
